@@ -30,6 +30,9 @@ structure Builder where
   proxyNode    : String := ""                      -- proxy.GetNodeName()
   unhealthyOk  : Bool := false                     -- supportsUnhealthyEndpoints(service, dr, port, subset)
   persistent   : Bool := false                     -- service carries the persistent-session label
+  proxyNetwork : String := ""                      -- proxy.Metadata.Network            (Net.lean)
+  proxyV4      : Bool := true                      -- proxy.SupportsIPv4()              (Net.lean)
+  proxyV6      : Bool := false                     -- proxy.SupportsIPv6()              (Net.lean)
   deriving Repr, Inhabited
 
 /-- `labels.Instance.SubsetOf`: every subset label is on the endpoint with the same value. -/
